@@ -115,4 +115,12 @@ CLAIMED["C02"] = (
     "(sleep at the n-th / every k-th submission or task start of a chosen node or connection thread, biased to starve senders of non-blocking connections).",
     ASYNC_NOTE + "; perturbation only at task boundaries; zero hook hits is a harness error", "DESIGN.md §4 C02",
 )
+CLAIMED["C05"] = (
+    PBT + ": generated lifecycle call histories with user-thread timing + enumerated gate scenarios through the REX_VERIF gate points; oracle = every call returns (quiescence-based deadlock detector) and history invariants on consecutive episode records",
+    "Generated supported systems x both clocks x histories (reset step* stop / run+ stop / restart without stop / stop twice) x gate scenarios that park the supervisor, a node "
+    "thread or a connection thread while stop / reset / stop-then-run is issued; each later episode must start at seq 0 / time 0 with zero drift (start-time law re-evaluated), the "
+    "episode counter advances by one and no window carries a payload of another episode.",
+    "liveness observed up to a watchdog; supported class of DESIGN §2.1 (calibrated on 480 systems); interleavings only at the gate points and through user-thread timing; single user thread",
+    "DESIGN.md §4 C05",
+)
 NOT_APPLICABLE = {}
